@@ -4,38 +4,45 @@ from lib import terms, coqrun
 from lib.terms import g_str, g_list
 from props.cli_gen import Gen, SGen, render_clause, clause_variables
 from props import c18_driver
+from lib import emitcheck as E
 
 ID = 'C18'
-IMPORTS = ['Cli.Determinism', 'Cli.RunDet']
-THEOREMS = ['C18_dedup_keeps_first_occurrence_order', 'C18_first_occurrence_order_unique',
-            'C18_dedup_permutation_invariant_refuted', 'C18_counters_per_call', 'C18_shared_counters_refuted']
+IMPORTS = E.IMPORTS
+THEOREMS = ['C18_filter_free_canonical', 'C18_canonical_unique', 'C18_decl_order_canonical', 'C18_pipeline_is_compile_text',
+            'C18_set_order_refuted', 'C18_group_order_refuted', 'C18_counters_per_call', 'C18_shared_counters_refuted']
 RULE = ('batch cases: every program of the batch is compiled through compile_prolog_from_string in >= 8 subprocesses with '
         'different PYTHONHASHSEED, each with its own order of the programs, 0-5 unrelated compilations before each (syntax '
         'errors, visitor errors such as p :- q(foo/2)., non-callable heads, valid programs) and its own kind of options '
-        'argument (default, fresh/reused object, fresh/reused class, object without current_source_file), and twice in the '
+        'argument (default, fresh/reused object, fresh/reused class, object without current_source_file, or compile_prolog_from_file on a '
+        'file holding the text), and twice in the '
         'harness process; all results for a program must be byte-identical (sha256 of the text, or exception class and '
-        'message). decl cases: one structured clause; the order of the `V_x = variable()` lines of the compiled text is '
-        'compared with the model filter_free_variables evaluated in Coq. Non-trivial: a batch that contains a program with a '
-        'clause with >= 2 fresh variables, >= 1 if-then-else and >= 1 anonymous variable; a decl case with >= 2 declared '
-        'variables of which one occurs more than once. Distinct by hash of the case.')
+        'message) AND equal to the text that the Coq model of the compiler (Comp/CompileText.v compile_text, evaluated in Coq on '
+        'the source text) gives for that program (sha256 of the model text; for a refused program the kind of refusal). '
+        'decl cases: one structured clause; the whole compiled text is compared with the model text, and the order of the '
+        '`V_x = variable()` lines with the first-occurrence order computed from the clause syntax. Non-trivial: a batch that '
+        'contains a program with a clause with >= 2 fresh variables, >= 1 if-then-else and >= 1 anonymous variable; a decl case '
+        'with >= 2 declared variables of which one occurs more than once. Distinct by hash of the case.')
 TRUSTED_BASE = [
-    'Coq 8.16.1 kernel (coqc); vm_compute for the in-Coq evaluation of the model on every decl case; no native_compute',
+    'Coq 8.16.1 kernel (coqc); vm_compute for the in-Coq evaluation of the model compiler on every program; no native_compute',
     'no axioms: all C18 theorems are closed under the global context',
-    'hand-written model Cli/Determinism.v of YPPrologCompiler.filter_free_variables and of the per-call creation of the '
-    'visitor / compiler objects; tied to /repo by the decl cases (declaration order read from the compiled text)',
-    'determinism of the implementation itself (process, hash seed, history) is OBSERVED over the sweep of configurations '
-    'described in the rule, not proved: the model is a function, which proves nothing about CPython',
+    'hand-written model of the compiler Comp/CompileText.v compile_text (front end, compile_program, limits, emitter with repr; '
+    'shared with C11/C12) and Cli/DetCompile.v (the same pipeline with the variable-order function and the initial counters '
+    'as parameters, proved equal to compile_text at (identity, (0,0))); tied to /repo byte for byte by this check',
+    'determinism of the implementation itself (process, hash seed, history, options object) is OBSERVED over the sweep of '
+    'configurations described in the rule, not proved: the model is a function, which proves nothing about CPython',
+    'str.isprintable of the non-ASCII code points of a case is read from the host Python (the `printable` parameter of the model)',
     'harness: generators, subprocess driver harness/props/c18_driver.py, digest comparison',
 ]
 ASSUMPTIONS = ['errors raised for an options object that lacks current_source_file (AttributeError instead of CompilerError for a '
-               'non-callable head) are compared only among runs with such an object',
+               'non-callable head) are compared only among runs with such an object (and their kind with the model)',
                'debug options are off in every compilation (debug text contains object addresses and is not part of the returned text)',
-               'hash seeds, orders and histories are sampled, not exhausted']
+               'hash seeds, orders and histories are sampled, not exhausted',
+               'messages and positions of errors are compared between runs, not with the model (the model only has the kind of refusal)']
 CASE_TIMEOUT = 300
-COQ_CHUNK = 40
+COQ_CHUNK = 14
 
 PY = sys.executable
-MODES = ['default', 'fresh-object', 'reused-object', 'reused-class', 'fresh-class', 'bare-object']
+MODES = ['default', 'fresh-object', 'reused-object', 'reused-class', 'fresh-class', 'bare-object', 'from-file']
 
 # ------------------------------------------------------------------ generation
 
@@ -76,7 +83,7 @@ def gen_batch(rng, g, sg, nprog, nproc):
     return {'kind': 'batch', 'programs': programs, 'noise': noise, 'procs': procs}
 
 def gen(rng, tier):
-    nbatch, nprog, nproc, ndecl = (24, 10, 8, 400) if tier == 'quick' else (150, 16, 16, 6000)
+    nbatch, nprog, nproc, ndecl = (12, 8, 8, 240) if tier == 'quick' else (100, 12, 12, 2500)
     g = Gen(rng, special=0.15)
     sg = SGen(rng)
     batches = [gen_batch(rng, g, sg, nprog, nproc) for _ in range(nbatch)]
@@ -113,10 +120,16 @@ def builtin_corpus():
 
 def _spawn(case, proc):
     env = {'PATH': os.environ.get('PATH', '/usr/bin:/bin'), 'PYTHONPATH': os.path.join(os.environ.get('VERIF_REPO', '/repo'), 'src'),
-           'PYTHONHASHSEED': str(proc['hashseed']), 'PYTHONDONTWRITEBYTECODE': '1', 'LC_ALL': 'C.UTF-8'}
+           'PYTHONHASHSEED': str(proc['hashseed']), 'PYTHONDONTWRITEBYTECODE': '1', 'LC_ALL': 'C.UTF-8',
+           'VERIF_SCRATCH': _scratch()}
     job = json.dumps({'programs': case['programs'], 'noise': case['noise'], 'plan': proc['plan']})
     return subprocess.Popen([PY, os.path.abspath(c18_driver.__file__)], stdin=subprocess.PIPE, stdout=subprocess.PIPE,
                             stderr=subprocess.PIPE, env=env, text=True), job
+
+def _scratch():
+    d = os.path.join(coqrun.VERIF, '.work', 'c18-scratch')
+    os.makedirs(d, exist_ok=True)
+    return d
 
 _DECL = re.compile(r'^\s+V_(\w+) = variable\(\)$', re.M)
 _ALIAS = re.compile(r'^\s+V_(\w+) = arg\d+$', re.M)
@@ -129,13 +142,9 @@ def impl(case):
             out = compile_prolog_from_string(text)
         except Exception as e:
             return {'error': type(e).__name__, 'text': text}
-        return {'declared': _DECL.findall(out), 'aliased': _ALIAS.findall(out), 'text': text}
-    # batch: start every subprocess, then compile here as well, then collect
-    running = []
-    for proc in case['procs']:
-        p, job = _spawn(case, proc)
-        p.stdin.write(job); p.stdin.close()
-        running.append((proc, p))
+        return {'declared': _DECL.findall(out), 'aliased': _ALIAS.findall(out), 'text': text, 'out': out}
+    # batch: compile here (twice, with unrelated compilations in between), then one subprocess after the other
+    # (the runner's pool already runs several cases in parallel: no more than one child per pool worker)
     here = []
     state = {}
     first = [c18_driver.compile_one(t, None) for t in case['programs']]
@@ -147,9 +156,10 @@ def impl(case):
     for i, d in enumerate(second):
         results[i].add(d)
     problems = []
-    for proc, p in running:
+    for proc in case['procs']:
+        p, job = _spawn(case, proc)
         try:
-            out = p.stdout.read(); err = p.stderr.read(); p.wait(timeout=240)
+            out, err = p.communicate(job, timeout=240)
         except Exception as e:
             p.kill()
             problems.append('subprocess with hash seed %d: %r' % (proc['hashseed'], e))
@@ -158,7 +168,7 @@ def impl(case):
             problems.append('subprocess with hash seed %d exited with %d: %s' % (proc['hashseed'], p.returncode, err[-300:]))
             continue
         for pi, dgst in json.loads(out):
-            if dgst.startswith('EXC') and proc['plan'][0][2] == 'bare-object':
+            if dgst.startswith('EXC') and proc['plan'] and proc['plan'][0][2] == 'bare-object':
                 # an options object without current_source_file (as in the repo's tests) makes the visitor's
                 # `raise CompilerError(self.context.current_source_file, ...)` an AttributeError: different options,
                 # different error; such results are compared among themselves only
@@ -170,12 +180,12 @@ def impl(case):
                 results[pi].add(dgst)
                 if len(results[pi]) == 2:
                     problems.append('program %d: hash seed %d (options %s) gives %s, the harness process gave %s' % (
-                        pi, proc['hashseed'], proc['plan'][0][2], dgst[:40], first[pi][:40]))
+                        pi, proc['hashseed'], proc['plan'][0][2] if proc['plan'] else '-', dgst[:40], first[pi][:40]))
     rich = []
     from yldprolog.compiler import compile_prolog_from_string
     for t in case['programs']:
         rich.append(_rich(t, compile_prolog_from_string))
-    return {'digests': [sorted(s) for s in results], 'problems': problems, 'rich': rich,
+    return {'digests': [sorted(s) for s in results], 'bare': [sorted(s) for s in bare], 'problems': problems, 'rich': rich,
             'observations': len(case['procs']) + 2}
 
 def _rich(text, comp):
@@ -192,27 +202,66 @@ def _rich(text, comp):
 # ------------------------------------------------------------------ model side
 
 def model_expr(case):
-    if case['kind'] != 'decl':
-        return None
-    aliased, head, body = clause_variables(case['clause'])
-    return '(run_decl %s %s %s)' % (g_list([g_str(v) for v in aliased]), g_list([g_str(v) for v in head]), g_list([g_str(v) for v in body]))
+    """the text (or the kind of rejection) that the Coq model of the compiler, Comp/CompileText.v compile_text, computes
+    for every source of the case"""
+    if case['kind'] == 'decl':
+        return '(OL [%s])' % E.model_text_expr(render_clause(case['clause']) + '\n')
+    return '(OL [%s])' % '; '.join(E.model_text_expr(t) for t in case['programs'])
+
+def _digest_verdict(dg):
+    """classify a digest of c18_driver.compile_one the way lib/emitcheck.compile_verdict classifies an outcome"""
+    if dg.startswith('OK:'):
+        return 'text'
+    if dg == 'EXC:RecursionError':
+        return 'resource'
+    _, cls, msg = dg.split(':', 2)
+    if cls == 'CompilerError' and 'program too large for Python' in msg:
+        return 'too-large'
+    if cls == 'ValueError' and 'integer string conversion' in msg:
+        return 'reject-numeral'
+    return 'reject-front'
+
+def _sha(text):
+    return 'OK:' + hashlib.sha256(text.encode('utf8', 'surrogatepass')).hexdigest()
 
 def compare(case, io_, mo):
-    if case['kind'] != 'decl':
-        return None
-    if 'error' in io_:
-        return 'the clause does not compile: %s' % io_['error']
-    if mo[0] != 'decl':
-        return 'model output malformed'
-    want = mo[1] + mo[2]
-    if io_['declared'] != want:
-        return 'declaration order %r, model %r' % (io_['declared'], want)
-    aliased, _, _ = clause_variables(case['clause'])
-    if io_['aliased'] != aliased:
-        return 'aliased head arguments %r, expected %r' % (io_['aliased'], aliased)
+    if case['kind'] == 'decl':
+        if 'error' in io_:
+            return 'the clause does not compile: %s' % io_['error']
+        return E.compare_verdicts(io_['text'], 'text', io_['out'], mo[0])
+    # batch: EVERY observation of every program (each process, hash seed, history, options object) is the model's text
+    for i, (t, ds) in enumerate(zip(case['programs'], io_['digests'])):
+        mv, mtext = E.model_verdict(mo[i])
+        want = _sha(mtext) if mv == 'text' else None
+        for dg in ds + io_['bare'][i]:
+            iv = _digest_verdict(dg)
+            if iv == 'resource' and E.source_depth(t) >= 100:
+                continue
+            if iv != mv:
+                return 'program %d: an observation is %s (%s), the model compiler says %s' % (i, iv, dg[:60], mv)
+            if mv == 'text' and dg != want:
+                return 'program %d: the bytes of an observation (%s...) are not the bytes of the model text (%s...)' % (i, dg[3:15], want[3:15])
     return None
 
+def _dedupe(vs, bound):
+    out = []
+    for v in vs:
+        if v not in bound and v not in out:
+            out.append(v)
+    return out
+
 def oracle(case, io_):
+    if case['kind'] == 'decl' and isinstance(io_, dict) and 'declared' in io_:
+        # the property's own condition for the declarations, computed from the clause syntax alone: the aliased
+        # arguments, then the head's remaining variables, then the body's, each once, by first occurrence in the text
+        aliased, head, body = clause_variables(case['clause'])
+        h = _dedupe(head, aliased)
+        want = h + _dedupe(body, aliased + h)
+        if io_['declared'] != want:
+            return 'declaration order %r, first-occurrence order of the clause text %r' % (io_['declared'], want)
+        if io_['aliased'] != aliased:
+            return 'aliased head arguments %r, expected %r' % (io_['aliased'], aliased)
+        return None
     if case['kind'] == 'batch' and isinstance(io_, dict):
         if io_['problems']:
             return '; '.join(io_['problems'][:3])
